@@ -25,6 +25,7 @@ impl Vm {
       ExecutionSignal::Ok => self.execute(mode),
       ExecutionSignal::OkReturn => ExecutionResult::Ok(self.fiber.pop()),
       ExecutionSignal::RuntimeError => ExecutionResult::RuntimeError,
+      ExecutionSignal::Exit => ExecutionResult::Exit(self.exit_code),
       _ => self.internal_error("Unexpected signal in run_fun."),
     };
 
@@ -55,6 +56,7 @@ impl Vm {
       ExecutionSignal::Ok => self.execute(mode),
       ExecutionSignal::OkReturn => ExecutionResult::Ok(self.fiber.pop()),
       ExecutionSignal::RuntimeError => ExecutionResult::RuntimeError,
+      ExecutionSignal::Exit => ExecutionResult::Exit(self.exit_code),
       _ => self.internal_error("Unexpected signal in run_method."),
     };
 
@@ -87,7 +89,7 @@ impl Vm {
   fn to_call_result(&self, execute_result: ExecutionResult) -> Call {
     match execute_result {
       ExecutionResult::Ok(value) => Call::Ok(value),
-      ExecutionResult::Exit(_) => self.internal_error("Accidental early exit in hook call"),
+      ExecutionResult::Exit(code) => Call::Err(LyError::Exit(code)),
       ExecutionResult::CompileError => {
         self.internal_error("Compiler error should occur before code is executed.")
       },
